@@ -284,6 +284,11 @@ class PatternConstraintComponent(StringBasedConstraintBase):
             self.flags = None
 
         re_flags = 0
+        if self.flags is not None and not isinstance(self.flags, rdflib.Literal):
+            raise ConstraintLoadError(
+                "PatternConstraintComponent sh:flags must be a RDF Literal node.",
+                "https://www.w3.org/TR/shacl/#PatternConstraintComponent",
+            )
         if self.flags:
             flags = str(self.flags.value).lower()
             case_insensitive = 'i' in flags
@@ -294,7 +299,7 @@ class PatternConstraintComponent(StringBasedConstraintBase):
                 re_flags |= re.M
         self.compiled_cache = {}
         for p in patterns_found:
-            if p.value is not None and len(p.value) > 1:
+            if isinstance(p.value, str) and len(p.value) > 1:
                 re_pattern = str(p.value)
             else:
                 re_pattern = str(p)
